@@ -104,6 +104,9 @@ func (p SignatureProof) AddSignature(sig []byte, key gcrypto.PubKey) error {
 
 	gotSigP1 := new(blst.P1Affine)
 	gotSigP1 = gotSigP1.Uncompress(sig)
+	if gotSigP1 == nil {
+		return errors.New("failed to decompress signature")
+	}
 
 	// The key is part of the tree.
 	// Do we already have the signature?
@@ -251,7 +254,7 @@ func (p SignatureProof) MergeSparse(s gcrypto.SparseSignatureProof) gcrypto.Sign
 			// We did have the signature; does it match?
 			sig := new(blst.P1Affine)
 			sig = sig.Uncompress(ss.Sig)
-			if !haveSig.Equals(sig) {
+			if sig == nil || !haveSig.Equals(sig) {
 				res.AllValidSignatures = false
 			}
 		}
